@@ -437,6 +437,9 @@ namespace pika::threads::detail {
         {
             pika::threads::detail::increment_global_activity_count();
 
+#if defined(PIKA_VERIF_HOOKS)
+            auto const verif_hint = data.schedulehint;
+#endif
             // NOTE: This scheduler ignores NUMA hints.
             std::size_t num_thread =
                 data.schedulehint.mode == execution::thread_schedule_hint_mode::thread ?
@@ -449,6 +452,7 @@ namespace pika::threads::detail {
             std::unique_lock<pu_mutex_type> l;
             PIKA_VERIF_EXIT("el.unl", static_cast<scheduler_base const*>(this), l.owns_lock() ? static_cast<std::uint64_t>(l.mutex() - &pu_mtxs_[0]) : std::uint64_t(255));
             num_thread = select_active_pu(l, num_thread);
+            PIKA_VERIF_POST("place.create", nullptr, this->get_parent_pool()->get_pool_index(), ::pika::verif::place_pack(num_thread, static_cast<int>(verif_hint.mode), verif_hint.hint, static_cast<int>(data.priority), data.run_now ? 4u : 0u));
 
             data.schedulehint.mode = execution::thread_schedule_hint_mode::thread;
             data.schedulehint.hint = static_cast<std::int16_t>(num_thread);
@@ -592,6 +596,7 @@ namespace pika::threads::detail {
             std::unique_lock<pu_mutex_type> l;
             PIKA_VERIF_EXIT("el.unl", static_cast<scheduler_base const*>(this), l.owns_lock() ? static_cast<std::uint64_t>(l.mutex() - &pu_mtxs_[0]) : std::uint64_t(255));
             num_thread = select_active_pu(l, num_thread, allow_fallback);
+            PIKA_VERIF_POST("place.sched", get_thread_id_data(thrd), this->get_parent_pool()->get_pool_index(), ::pika::verif::place_pack(num_thread, static_cast<int>(schedulehint.mode), schedulehint.hint, static_cast<int>(priority), allow_fallback ? 1u : 0u));
 
             auto* thrdptr = get_thread_id_data(thrd);
             (void) thrdptr;
@@ -652,6 +657,7 @@ namespace pika::threads::detail {
             std::unique_lock<pu_mutex_type> l;
             PIKA_VERIF_EXIT("el.unl", static_cast<scheduler_base const*>(this), l.owns_lock() ? static_cast<std::uint64_t>(l.mutex() - &pu_mtxs_[0]) : std::uint64_t(255));
             num_thread = select_active_pu(l, num_thread, allow_fallback);
+            PIKA_VERIF_POST("place.sched", get_thread_id_data(thrd), this->get_parent_pool()->get_pool_index(), ::pika::verif::place_pack(num_thread, static_cast<int>(schedulehint.mode), schedulehint.hint, static_cast<int>(priority), (allow_fallback ? 1u : 0u) | 2u));
 
             if (priority == execution::thread_priority::high_recursive ||
                 priority == execution::thread_priority::high ||
@@ -1076,6 +1082,9 @@ namespace pika::threads::detail {
                 }
             }
 
+            PIKA_VERIF_POST("place.queue", queues_[num_thread].data_, parent_pool_->get_pool_index() | (num_queues_ << 8) | (num_high_priority_queues_ << 24), (0u << 16) | num_thread);
+            if (num_thread < num_high_priority_queues_) PIKA_VERIF_POST("place.queue", high_priority_queues_[num_thread].data_, parent_pool_->get_pool_index() | (num_queues_ << 8) | (num_high_priority_queues_ << 24), (1u << 16) | num_thread);
+            if (num_thread == num_queues_ - 1) PIKA_VERIF_POST("place.queue", &low_priority_queue_, parent_pool_->get_pool_index() | (num_queues_ << 8) | (num_high_priority_queues_ << 24), (2u << 16) | num_thread);
             PIKA_VERIF_POST("el.sched", static_cast<scheduler_base const*>(this), reinterpret_cast<std::uintptr_t>(static_cast<scheduler_base const*>(this)), (std::uint64_t(num_queues_) << 8) | (has_scheduler_mode(scheduler_mode::enable_elasticity) ? 1 : 0) | (has_scheduler_mode(scheduler_mode::enable_stealing) ? 2 : 0));
             PIKA_VERIF_POST("el.qmap", queues_[num_thread].data_, num_thread, reinterpret_cast<std::uintptr_t>(static_cast<scheduler_base const*>(this)));
             if (num_thread < num_high_priority_queues_) PIKA_VERIF_POST("el.qmap", high_priority_queues_[num_thread].data_, num_thread | (1u << 16), reinterpret_cast<std::uintptr_t>(static_cast<scheduler_base const*>(this)));
